@@ -322,11 +322,11 @@ def main(modname, argv=None):
         validated, wall, tot["vc_s"] + tot["branch_s"]))
     for line in out_lines:
         print(line)
+    for h in harness_errors[:20]:
+        print("HARNESS-ERROR: " + h, file=sys.stderr)
     if n_new:
         return 1
     if harness_errors:
-        for h in harness_errors[:20]:
-            print("HARNESS-ERROR: " + h, file=sys.stderr)
         return 3
     return 0
 
